@@ -381,39 +381,59 @@ func runC15(c *core.Ctx) {
 		}
 		c.Decide(ok, "C15-TS", "smgp/smgp30.NewLogin#wire", c.Prog.Pos(fn.Pos()), "ClientID, Timestamp and AuthenticatorClient sent are exactly the values hashed / the digest", why)
 	}
-	// smgp30.genTimestamp: MMDDHHMMSS as a number
+	// smgp30.genTimestamp: MMDDHHMMSS as a number (directly, or through a helper taking the instant)
 	if fn := lookup("smgp/smgp30", "genTimestamp"); fn == nil {
 		c.Broken("C15-TS", "smgp/smgp30.genTimestamp", "function not found")
 	} else {
-		pf := prover.New(fn)
 		ok, why := true, ""
 		want := map[string]int64{"Month": 100000000, "Day": 1000000, "Hour": 10000, "Minute": 100, "Second": 1}
-		for _, rs := range returns(fn) {
-			lin := pf.LinOf(strip(rs[0]))
-			got := map[string]int64{}
-			var recv ssa.Value
-			for a, k := range lin.T {
-				v := pf.AtomValue(a)
-				call, isC := strip(v).(*ssa.Call)
-				if v == nil || !isC || call.Call.StaticCallee() == nil || call.Call.StaticCallee().Signature.Recv() == nil || call.Call.StaticCallee().Signature.Recv().Type().String() != "time.Time" {
-					ok, why = false, "term "+a+" is not a time.Time component"
-					continue
+		var judge func(f *ssa.Function, instant ssa.Value, depth int)
+		judge = func(f *ssa.Function, instant ssa.Value, depth int) {
+			pf := prover.New(f)
+			for _, rs := range returns(f) {
+				rv := strip(rs[0])
+				if call, isC := rv.(*ssa.Call); isC && depth < 2 {
+					if cal := call.Call.StaticCallee(); cal != nil && cal.Pkg != nil && load.InModule(cal.Pkg.Pkg) && len(cal.Params) == 1 && len(cal.Blocks) > 0 && cal.Params[0].Type().String() == "time.Time" {
+						// the instant handed to the helper: one value
+						arg := call.Call.Args[0]
+						if instant != nil && arg != instant {
+							ok, why = false, "the helper is not given the instant of this function"
+						}
+						judge(cal, cal.Params[0], depth+1)
+						continue
+					}
 				}
-				if recv == nil {
-					recv = call.Call.Args[0]
-				} else if recv != call.Call.Args[0] {
-					ok, why = false, "the components are taken from different instants"
+				lin := pf.LinOf(rv)
+				got := map[string]int64{}
+				recv := instant
+				for a, k := range lin.T {
+					v := pf.AtomValue(a)
+					call, isC := strip(v).(*ssa.Call)
+					if v == nil || !isC || call.Call.StaticCallee() == nil || call.Call.StaticCallee().Signature.Recv() == nil || call.Call.StaticCallee().Signature.Recv().Type().String() != "time.Time" {
+						ok, why = false, "term "+a+" is not a time.Time component"
+						continue
+					}
+					if recv == nil {
+						recv = call.Call.Args[0]
+					} else if recv != call.Call.Args[0] {
+						ok, why = false, "the components are taken from different instants"
+					}
+					got[call.Call.StaticCallee().Name()] += k
 				}
-				got[call.Call.StaticCallee().Name()] += k
-			}
-			if lin.C != 0 || len(got) != len(want) {
-				ok, why = false, "value is "+lin.String()
-			}
-			for n, k := range want {
-				if got[n] != k {
-					ok, why = false, fmt.Sprintf("coefficient of %s is %d, expected %d (value %s)", n, got[n], k, lin.String())
+				if lin.C != 0 || len(got) != len(want) {
+					ok, why = false, "value is "+lin.String()
+				}
+				for n, k := range want {
+					if got[n] != k {
+						ok, why = false, fmt.Sprintf("coefficient of %s is %d, expected %d (value %s)", n, got[n], k, lin.String())
+					}
 				}
 			}
+		}
+		judge(fn, nil, 0)
+		// one clock read
+		if n := len(callsTo(fn, "time", "Now")); n != 1 {
+			ok, why = false, fmt.Sprintf("%d clock reads in genTimestamp, expected 1", n)
 		}
 		c.Decide(ok, "C15-TS", "smgp/smgp30.genTimestamp", c.Prog.Pos(fn.Pos()), "Month*10^8 + Day*10^6 + Hour*10^4 + Minute*100 + Second of one instant", "genTimestamp is not the MMDDHHMMSS number of one instant: "+why)
 	}
